@@ -19,14 +19,26 @@ import (
 // zero values used only for their identity.
 
 type txRef struct {
-	s  *Store
-	tx *txState
+	s     *Store
+	tx    *txState
+	stmts []*stmtRef // statements prepared on the transaction: database/sql closes them when it ends
+}
+
+func (r *txRef) closeStmts() {
+	for _, st := range r.stmts {
+		if !st.closed {
+			st.closed = true
+			r.s.CloseStmt(st.text)
+		}
+	}
+	r.stmts = nil
 }
 type stmtRef struct {
 	s      *Store
 	tx     *txState
 	text   string
 	closed bool
+	view   bool // a Tx.StmtContext view: closing it closes nothing at driver level
 }
 type rowsRef struct {
 	s      *Store
@@ -168,19 +180,47 @@ func Sym_Tx_PrepareContext(tx *sql.Tx, ctx context.Context, query string) (*sql.
 		return nil, err
 	}
 	st := &sql.Stmt{}
-	stmtOf[st] = &stmtRef{s: r.s, tx: r.tx, text: query}
+	ref := &stmtRef{s: r.s, tx: r.tx, text: query}
+	stmtOf[st] = ref
+	r.stmts = append(r.stmts, ref)
 	return st, nil
 }
 func Sym_Tx_StmtContext(tx *sql.Tx, ctx context.Context, stmt *sql.Stmt) *sql.Stmt {
 	r := txOf[tx]
 	o := stmtOf[stmt]
 	st := &sql.Stmt{}
-	// a transaction-specific view of an existing prepared statement: no new PREPARE
-	stmtOf[st] = &stmtRef{s: r.s, tx: r.tx, text: o.text}
+	if o.closed || o.tx != nil {
+		// database/sql: a statement that is closed or belongs to a transaction is
+		// re-prepared on this transaction's connection
+		ref := &stmtRef{s: r.s, tx: r.tx, text: o.text}
+		if err := r.s.Prepare(r.tx, ctxTag(ctx), o.text); err != nil {
+			ref.closed = true
+		} else {
+			r.stmts = append(r.stmts, ref)
+		}
+		stmtOf[st] = ref
+		return st
+	}
+	// a transaction-specific view of a pool-level prepared statement
+	stmtOf[st] = &stmtRef{s: r.s, tx: r.tx, text: o.text, view: true}
 	return st
 }
-func Sym_Tx_Commit(tx *sql.Tx) error   { r := txOf[tx]; return r.s.Commit(r.tx) }
-func Sym_Tx_Rollback(tx *sql.Tx) error { r := txOf[tx]; return r.s.Rollback(r.tx) }
+func Sym_Tx_Commit(tx *sql.Tx) error {
+	r := txOf[tx]
+	err := r.s.Commit(r.tx)
+	if err != errTxDone {
+		r.closeStmts()
+	}
+	return err
+}
+func Sym_Tx_Rollback(tx *sql.Tx) error {
+	r := txOf[tx]
+	err := r.s.Rollback(r.tx)
+	if err != errTxDone {
+		r.closeStmts()
+	}
+	return err
+}
 
 // ---- *sql.Stmt
 
@@ -215,7 +255,7 @@ func Sym_Stmt_Close(st *sql.Stmt) error {
 		return nil
 	}
 	r.closed = true
-	if r.tx == nil || true {
+	if !r.view {
 		r.s.CloseStmt(r.text)
 	}
 	return nil
